@@ -116,6 +116,7 @@ type gen struct {
 	pkg    *types.Package
 	val    int
 
+	declPool        []string // names drawn for declared fields and methods
 	useFmt, useSort bool
 	deep, shadow    bool
 	recvs           []rexpr // receiver expressions available in the entry function
@@ -162,7 +163,7 @@ func (g *gen) genHierarchy() {
 			}
 			nf := g.Pick(3, "nfields")
 			for k := 0; k < nf; k++ {
-				name := pool[g.Pick(len(pool), "field-name")]
+				name := g.declPool[g.Pick(len(g.declPool), "field-name")]
 				if used[name] {
 					continue
 				}
@@ -176,7 +177,7 @@ func (g *gen) genHierarchy() {
 		}
 		nm := g.Pick(4, "nmethods")
 		for k := 0; k < nm; k++ {
-			name := pool[g.Pick(len(pool), "meth-name")]
+			name := g.declPool[g.Pick(len(g.declPool), "meth-name")]
 			if used[name] {
 				continue
 			}
@@ -1613,8 +1614,11 @@ func (g *gen) finish(body string, extraDecls []string, meta map[string]string) g
 	return p
 }
 
-func newGen(t *rapid.T, px string) *gen {
-	g := &gen{G: progen.New(t, px, 0)}
+func newGen(t *rapid.T, px string, smallPool bool) *gen {
+	g := &gen{G: progen.New(t, px, 0), declPool: pool}
+	if smallPool {
+		g.declPool = pool[:2] // two names only: same-depth collisions become frequent
+	}
 	g.genHierarchy()
 	g.typecheckSkeleton()
 	g.declareAll()
@@ -1626,7 +1630,7 @@ var devSites = 0
 
 // Generate builds one valid program (main stream).
 func Generate(t *rapid.T, px string) gobatch.Program {
-	g := newGen(t, px)
+	g := newGen(t, px, false)
 	body := g.entryPrologue()
 	n := g.Int(3, 10, "nsites")
 	if devSites > 0 {
